@@ -8,7 +8,9 @@ pm_c02: model driver for C02.  One case = one bitmap history.  Lines:
   addn v ... / daddn v ...    AddN / DirectAddN                                       → n=<changed> a=[slice afterwards] | <obs>
   removen v ... / dremoven    RemoveN / DirectRemoveN                                 → n=<changed> a=[...] | <obs>
   import set|clear v,v,...    ImportRoaringBits(payload holding exactly these values) → n=<changed> | <obs>
+  importo set|clear v,.. m    same with an official-format payload (reference encoder, run mode m) → n=<changed> | <obs>
   fill set|clear k lo hi      ImportRoaringBits(payload = container k holding lo..hi) → n=<changed> | <obs>
+  fillstep set|clear k lo hi s  ImportRoaringBits(payload = container k holding lo, lo+s, .. <= hi) → n=<changed> | <obs>
   optimize                    Bitmap.Optimize                                         → | <obs>
   ctrremove k                 Containers.Remove(k)                                    → | <obs>
   reload                      UnmarshalBinary(WriteTo) on the same bitmap             → | <obs>
@@ -74,11 +76,37 @@ def modelObs {σ : Type} (C : Coll σ) (b : BM σ) : String :=
 def both (x y : String) : String :=
   if x = y then x else s!"POLICY-DIVERGENCE inplace=<{x}> fresh=<{y}>"
 
+def ascB : List Nat → Bool
+  | [] => true
+  | [_] => true
+  | a :: b :: r => a < b && ascB (b :: r)
+
+/-- `Spec.step`, computed with the merge kernels where a payload is ascending (every payload the
+harness builds is): `Spec.addAll s vs = unionAsc s vs` and `Spec.removeAll s vs = diffAsc s vs`
+(`Spec.addAll_eq_unionAsc`, `Spec.removeAll_eq_diffAsc`), and the reported count is the change of
+cardinality (`C02_changed_counts_spec`).  Payloads of 65536 values make the quadratic textbook
+definitions too slow to run. -/
+def specStep (s : Spec.S) (op : Op) : Spec.S × Out :=
+  match op with
+  | .importSet gs =>
+    let vals := Spec.groupValues gs
+    if ascB vals then
+      let s' := unionAsc s vals
+      (s', .imported (s'.length - s.length))
+    else Spec.step s op
+  | .importClear gs =>
+    let vals := Spec.groupValues gs
+    if ascB vals then
+      let s' := diffAsc s vals
+      (s', .imported (s.length - s'.length))
+    else Spec.step s op
+  | _ => Spec.step s op
+
 /-- Run a mutation on both policy instances and on the spec. -/
 def mutate {σ : Type} (C : Coll σ) (d : D σ) (op : Op) (tag : String) : D σ × Ans :=
   let ra := step C polInPlace d.a op
   let rb := step C polFresh d.b op
-  let rs := Spec.step d.s op
+  let rs := specStep d.s op
   let ma := outStr ra.2 ++ "| " ++ modelObs C ra.1
   let mb := outStr rb.2 ++ "| " ++ modelObs C rb.1
   let sp := outStr rs.2 ++ "| " ++ obsStr rs.1.length (!rs.1.isEmpty) rs.1 (Spec.views rs.1)
@@ -144,12 +172,24 @@ def stepD {σ : Type} (C : Coll σ) (isBT : Bool) (d : D σ) (ws : List String) 
   | ["import", "clear", csv] => match csvNats? csv with
     | some vs => mutate C d (.importClear (groupVals vs)) "c02-import-clear"
     | none => bad
+  | ["importo", "set", csv, _mode] => match csvNats? csv with
+    | some vs => mutate C d (.importSet (groupVals vs)) "c02-importo-set"
+    | none => bad
+  | ["importo", "clear", csv, _mode] => match csvNats? csv with
+    | some vs => mutate C d (.importClear (groupVals vs)) "c02-importo-clear"
+    | none => bad
   | ["fill", "set", k, lo, hi] => match k.toNat?, lo.toNat?, hi.toNat? with
     | some k, some lo, some hi => mutate C d (.importSet (if lo > hi then [] else [(k, List.range' lo (hi + 1 - lo))])) "c02-fill-set"
     | _, _, _ => bad
   | ["fill", "clear", k, lo, hi] => match k.toNat?, lo.toNat?, hi.toNat? with
     | some k, some lo, some hi => mutate C d (.importClear (if lo > hi then [] else [(k, List.range' lo (hi + 1 - lo))])) "c02-fill-clear"
     | _, _, _ => bad
+  | ["fillstep", mode, k, lo, hi, st] => match k.toNat?, lo.toNat?, hi.toNat?, st.toNat? with
+    | some k, some lo, some hi, some st =>
+      if st = 0 ∨ lo > hi ∨ (mode ≠ "set" ∧ mode ≠ "clear") then bad else
+      let cell := (List.range ((hi - lo) / st + 1)).map (fun i => lo + i * st)
+      mutate C d (if mode = "set" then .importSet [(k, cell)] else .importClear [(k, cell)]) "c02-fillstep"
+    | _, _, _, _ => bad
   | ["optimize"] => mutate C d .optimize "c02-optimize"
   | ["ctrremove", k] => match k.toNat? with
     | some k => mutate C d (.ctrRemove k) "c02-ctrremove"
